@@ -88,8 +88,16 @@ func (c *Ctx) N(quick, thorough int64) int64 {
 	if c.Thorough() {
 		return thorough
 	}
-	return quick
+	// the per-monitor quick counts were written for a one-second check; the quick tier is
+	// given QuickScale times that (never more than the thorough count)
+	if q := quick * QuickScale; q < thorough {
+		return q
+	}
+	return thorough
 }
+
+// QuickScale multiplies every quick-tier case count.
+const QuickScale = 8
 
 // ProgressStride sets how often (in cases) the progress marker is rewritten;
 // used by very dense sweeps where one pwrite per case would dominate.
